@@ -347,6 +347,10 @@ func (c *EWCase) run() string {
 		} else {
 			opts = append(opts, tensor.WithIncr(dstT))
 		}
+	case "incrA":
+		// the increment tensor is the operand itself: x += f(x), every f(x) taken from the old x
+		dstT = A.b.T
+		opts = append(opts, tensor.WithIncr(dstT))
 	case "reuseA":
 		dstT = A.b.T
 		opts = append(opts, tensor.WithReuse(dstT))
@@ -394,7 +398,7 @@ func (c *EWCase) run() string {
 		dest = A
 	case "reuse", "incr":
 		dest = Dst
-	case "reuseA", "reuseAv", "reuseAx":
+	case "reuseA", "reuseAv", "reuseAx", "incrA":
 		dest = A
 	case "reuseB", "reuseBv":
 		dest = B
@@ -537,14 +541,18 @@ func (c *EWCase) run() string {
 	}
 	// ---- delivered values
 	want := Arr{DT: resDT, Shape: A.arr.Shape, E: exp}
-	if c.Mode == "incr" {
+	if c.Mode == "incr" || c.Mode == "incrA" {
+		old := A.arr.E // incrA: the increment tensor is operand a itself
+		if c.Mode == "incr" {
+			old = Dst.arr.E
+		}
 		want = Arr{DT: resDT, Shape: A.arr.Shape, E: make([]interface{}, n)}
 		for k := range exp {
 			if isUndef(exp[k]) {
 				want.E[k] = undef
 				continue
 			}
-			want.E[k], _ = binop("Add", Dst.arr.E[k], exp[k])
+			want.E[k], _ = binop("Add", old[k], exp[k])
 		}
 	}
 	inexact := (c.Fam == "arith" && opInexact(c.Op, d)) || (c.Fam == "unary" && unopInexact(c.Op, d)) || (c.Mode == "incr" && d.IsFloat() && false)
